@@ -88,9 +88,9 @@ def run(ctx):
     ptp = fns['plan_timeseries_predictor']
     rows = 0
 
-    def run_ptp(where, groups, limit, extra=None):
+    def run_ptp(where, groups, limit, extra=None, meta_time=TIME):
         captured = {'plan': [], 'fetches': [], 'partition_queries': [],
-                    'metadata': {'order_by_column': TIME, 'group_by_columns': list(groups), 'window': WINDOW, 'timeseries': True, 'name': 'tp'}}
+                    'metadata': {'order_by_column': meta_time, 'group_by_columns': list(groups), 'window': WINDOW, 'timeseries': True, 'name': 'tp'}}
         stubs = mk_stubs(ctx, fns, utils_fns, captured)
         self_ = Obj('PlanJoinTSPredictorQuery')
         stubs['self.plan_fetch_timeseries_partitions'] = lambda it, *a, **k: it.call_function(fns['plan_fetch_timeseries_partitions'], [self_] + list(a), dict(k), Env())
@@ -219,6 +219,26 @@ def run(ctx):
                    f'[{label}] output_time_filter is {got_out}, expected {want_out}: the user\'s time condition is passed on as the output filter', file=TS, line=ptp.lineno)
         ctx.ob('C15.limit-after-join', f'{op}:saved', res['ret']['saved_limit'] == limit and all(s.limit is None or s.limit.value != limit for s in fetches),
                f'[{label}] the user\'s LIMIT must be returned as saved_limit ({res["ret"].get("saved_limit")!r}) and appear in no fetch query', file=TS, line=ptp.lineno)
+    # ---- letter case of the order column: the query and the model metadata may spell it differently ------------------------------------------------
+    for op, (qspell, mspell) in itertools.product(('>', 'between', '=', '> latest'), (('Time', 'time'), ('TIME', 'time'), ('time', 'Time'))):
+        tf = {'>': binop('>', ident('ta.' + qspell), const(5)), 'between': between(ident('ta.' + qspell), const(3), const(8)), '=': binop('=', ident('ta.' + qspell), const(5)),
+              '> latest': binop('>', ident('ta.' + qspell), latest())}[op]
+        res = run_ptp(tf, ['grp'], None, meta_time=mspell)
+        rows += 1
+        label = f'time {op} | query spells {qspell}, model metadata spells {mspell}'
+        wbound, want_range = REF[op]
+        want_n = (0 if wbound is False else 1) + (1 if want_range else 0)
+        ap = [s_ for s_ in res['plan'] if s_.kind == 'ApplyTimeseriesPredictorStep']
+        ok = res['raised'] is None and len(res['fetches']) == want_n and len(ap) == 1 and ap[0].output_time_filter is not None
+        if ok:
+            # the window query is bounded / the partition query is free of the time condition
+            pq = res['partition_queries']
+            ok = len(pq) == 1 and not any((_sig(c)[1] or '').lower() == 'time' for c in _conjuncts(pq[0].where))
+        ctx.ob('C15.time-column-case', label, ok,
+               f'[{label}] the time condition is not recognised when the query and the model metadata spell the order column in different letter case: '
+               f'{len(res["fetches"])} fetch queries (reference {want_n}), raised={res["raised"]}, output filter '
+               f'{"set" if ap and ap[0].output_time_filter is not None else "missing"}', file=TS, line=ptp.lineno,
+               witness='select * from int1.tbl ta join proj.tp tb where ta.Pickup_Hour > 5')
     # ---- rejections -------------------------------------------------------------------------------------------------------------------------
     rej = [
         ('ORDER BY', None, {'order_by': [Obj('OrderBy', field=ident('ta.x'), direction='default', nulls='default')]}),
